@@ -27,6 +27,7 @@ var (
 	restCmd    *exec.Cmd
 	restErr    error
 	keepClient = &http.Client{Timeout: 30 * time.Second}
+	restExited chan struct{}
 	freshCl    = &http.Client{Timeout: 30 * time.Second, Transport: &http.Transport{DisableKeepAlives: true}}
 )
 
@@ -36,34 +37,70 @@ func startRest() {
 		restErr = fmt.Errorf("VERIF_REST_BIN not set")
 		return
 	}
-	l, err := net.Listen("tcp", "127.0.0.1:0")
-	if err != nil {
-		restErr = err
-		return
-	}
-	addr := l.Addr().String()
-	l.Close()
-	restCmd = exec.Command(bin, "-serve", addr)
-	restCmd.Stdout, restCmd.Stderr = nil, nil
-	if err := restCmd.Start(); err != nil {
-		restErr = err
-		return
-	}
-	restBase = "http://" + addr
-	for i := 0; i < 200; i++ {
-		if resp, err := freshCl.Get(restBase + "/"); err == nil {
-			resp.Body.Close()
+	// The port is chosen by binding port 0 and releasing it; another process may take it before the server
+	// binds it.  A server that could not bind exits, so an answer only counts while our own child is alive;
+	// otherwise another port is tried.
+	for attempt := 0; attempt < 8; attempt++ {
+		l, err := net.Listen("tcp", "127.0.0.1:0")
+		if err != nil {
+			restErr = err
 			return
 		}
-		time.Sleep(25 * time.Millisecond)
+		addr := l.Addr().String()
+		l.Close()
+		cmd := exec.Command(bin, "-serve", addr)
+		cmd.Stdout, cmd.Stderr = nil, nil
+		if err := cmd.Start(); err != nil {
+			restErr = err
+			return
+		}
+		exited := make(chan struct{})
+		go func() { cmd.Wait(); close(exited) }()
+		alive := func() bool {
+			select {
+			case <-exited:
+				return false
+			default:
+				return true
+			}
+		}
+		up := false
+		for i := 0; i < 200 && alive(); i++ {
+			if resp, err := freshCl.Get("http://" + addr + "/"); err == nil {
+				resp.Body.Close()
+				up = true
+				break
+			}
+			time.Sleep(25 * time.Millisecond)
+		}
+		if up {
+			time.Sleep(100 * time.Millisecond) // a child that lost the port to someone else is gone by now
+		}
+		if up && alive() {
+			restCmd, restExited, restBase, restErr = cmd, exited, "http://"+addr, nil
+			return
+		}
+		if alive() {
+			cmd.Process.Kill()
+		}
+		<-exited
+		restErr = fmt.Errorf("server did not come up")
 	}
-	restErr = fmt.Errorf("server did not come up")
+}
+
+func restDead() bool {
+	select {
+	case <-restExited:
+		return true
+	default:
+		return false
+	}
 }
 
 func stopRest() {
 	if restCmd != nil && restCmd.Process != nil {
 		restCmd.Process.Kill()
-		restCmd.Wait()
+		<-restExited
 	}
 }
 
@@ -276,10 +313,13 @@ func doRest(f []string) string {
 		req.Header.Set("Content-Type", "application/json")
 	}
 	cl.CheckRedirect = func(*http.Request, []*http.Request) error { return http.ErrUseLastResponse }
+	if restDead() { // never talk to whoever may have taken the port since
+		return "server-dead"
+	}
 	t0 := time.Now()
 	resp, err := cl.Do(req)
 	if err != nil {
-		if restCmd.ProcessState != nil {
+		if restDead() {
 			return "server-dead"
 		}
 		return "no-response:" + strings.ReplaceAll(err.Error(), restBase, "")
